@@ -158,6 +158,9 @@ pub fn generate(thorough: bool, seed: u64, part: (usize, usize), em: &mut Emitte
             let mut v: Vec<String> = vec![cap.to_string(); pos]; v.push(kind.to_string()); v.push("100".into());
             emit(em, "tpkt_write", "pat:9:4", &v.join(","));
             emit(em, "tpkt_writes", "pat:9:4/pat:3:5", &v.join(","));
+            // after an interrupted frame: another message of exactly the same length, the same message again
+            emit(em, "tpkt_writes", "pat:9:4/pat:9:5", &v.join(","));
+            emit(em, "tpkt_writes", "pat:9:4/pat:9:4/pat:9:6/pat:2:1", &v.join(","));
         } } }
     }
     if part.0 == 0 {
